@@ -1,0 +1,79 @@
+//go:build verif
+// +build verif
+
+package backend
+
+import (
+	"time"
+
+	proto "github.com/kubewharf/kubebrain-client/api/v2rpc"
+
+	"github.com/kubewharf/kubebrain/pkg/metrics"
+)
+
+// Verification hooks, compiled only with `-tags verif`. They add yield points and accessors
+// for the correspondence harness; they change no behaviour when VerifYieldHook is nil.
+
+// VerifYieldHook, when set, is called at every verifYield point with the point's name.
+var VerifYieldHook func(point string)
+
+func verifYield(point string) {
+	if h := VerifYieldHook; h != nil {
+		h(point)
+	}
+}
+
+// VerifSetIntervals overrides the retry / check intervals used by backends created afterwards.
+func VerifSetIntervals(retry, check time.Duration) { retryInterval, checkInterval = retry, check }
+
+// VerifSetEventsTTL overrides the events TTL (seconds) used by backends created afterwards.
+func VerifSetEventsTTL(ttl int64) { eventsTTL = ttl }
+
+const (
+	VerifWatchBuffer          = watchBuffer
+	VerifResultChanLength     = resultChanLength
+	VerifEventBatchSize       = eventBatchSize
+	VerifWatchersChanCapacity = watchersChanCapacity
+)
+
+// VerifNewWatcherHub builds a stand-alone hub.
+func VerifNewWatcherHub(m metrics.Metrics) *WatcherHub {
+	return &WatcherHub{subs: make(map[chan []*proto.Event]struct{}), metricCli: m}
+}
+
+// VerifSubs returns the number of registered subscribers.
+func (w *WatcherHub) VerifSubs() int {
+	w.RLock()
+	defer w.RUnlock()
+	return len(w.subs)
+}
+
+// VerifFindRet exposes the result of Ring.FindEvents.
+type VerifFindRet struct {
+	Empty, High, Low bool
+	Newest, Oldest   *proto.Event
+	Events           []*proto.Event
+}
+
+// VerifFind runs FindEvents and exposes its result.
+func (r *Ring) VerifFind(revision uint64) VerifFindRet {
+	ret := r.FindEvents(revision)
+	return VerifFindRet{Empty: ret.empty, High: ret.high, Low: ret.low, Newest: ret.newest, Oldest: ret.oldest, Events: ret.events}
+}
+
+// VerifFilterByRevision / VerifFilterByPrefix expose the watch filters.
+func VerifFilterByRevision(events []*proto.Event, rev uint64) []*proto.Event {
+	return filterByRevision(events, rev)
+}
+func VerifFilterByPrefix(events []*proto.Event, prefix []byte) []*proto.Event {
+	return filterByPrefix(events, prefix)
+}
+
+// VerifCompactBorders exposes getCompactBorders for a configuration.
+func VerifCompactBorders(b Backend) [][]byte { return b.(*backend).getCompactBorders() }
+
+// VerifRetryQueueSize exposes the size of the uncertain-write retry queue.
+func VerifRetryQueueSize(b Backend) int { return b.(*backend).asyncFifoRetry.Size() }
+
+// VerifWatchCache exposes the backend's event ring.
+func VerifWatchCache(b Backend) *Ring { return b.(*backend).watchCache }
